@@ -45,9 +45,10 @@ def ty(k, id=0):
     return {"k": k, "id": id}
 
 
-def field(rust, t, rename="", default="none", skip=False, multiple=False, flatten=False, with_="none", transform="none"):
+def field(rust, t, rename="", default="none", skip=False, multiple=False, flatten=False, with_="none", transform="none", spelled=()):
+    # spelled: options written out with the value that changes nothing (`skip = false`, `multiple = false`)
     return {"rust": rust, "rename": rename, "default": default, "skip": skip, "multiple": multiple, "flatten": flatten,
-            "with": with_, "transform": transform, "ty": t}
+            "with": with_, "transform": transform, "ty": t, "spelled": list(spelled)}
 
 
 class Corpus:
@@ -148,6 +149,12 @@ def value_items(c, name, f, depth, rng):
             elif v["style"] == "newtype":
                 out.append(meta(name, "list", items=[meta(vn, "nv", "s:v1")]))
                 out.append(meta(name, "list", items=[meta(vn, "nv", "i:5")]))
+                if v["ty"]["k"] in ("recv", "map", "enum"):
+                    # the inner type's own list forms - an empty list, a complete one, one with mistakes
+                    fake = {"ty": v["ty"], "multiple": False, "transform": "none"}
+                    for it in value_items(c, vn, fake, depth - 1, rng)[:6]:
+                        if it["form"] == "list":
+                            out.append(meta(name, "list", items=[it]))
             else:
                 out.append(meta(name, "list", items=[meta(vn, "nv", "s:v1")]))
         first = e["variants"][0]
@@ -155,6 +162,7 @@ def value_items(c, name, f, depth, rng):
         out += [meta(name, "nv", "s:zz"), meta(name, "word"), meta(name, "list"), meta(name, "nv", "i:5"), meta(name, "junk"),
                 meta(name, "list", items=[lit("s:x")]), meta(name, "list", items=[meta("zz", "word")])]
         if writable(fn):
+            out.append(meta(name, "list", items=[meta("ns::" + fn, "word")]))       # a qualified path that merely ends in a variant's name
             out.append(meta(name, "list", items=[meta(fn, "word"), meta(fn, "word")]))
             out.append(meta(name, "list", items=[meta(fn[:-1] if len(fn) > 1 else fn + "x", "word")]))
     elif k == "map":
@@ -338,6 +346,12 @@ def build(seed, tier, focus='all'):
     root([field("name", V), field("hidden_one", V, skip=True), field("rest", ty("recv", flat_mid), flatten=True)])
     root([field("first_name", O), field("rest", ty("recv", flat_inner), flatten=True)], rename_all="camelCase", cdefault="fn")
 
+    # options spelled out with the value that changes nothing; names that are keywords (`crate = ".."` is an idiom)
+    root([field("max_volume", V, spelled=["skip"]), field("tags", vec(), multiple=True, spelled=["skip"]), field("other", O, spelled=["multiple"])])
+    root([field("max_volume", V, spelled=["skip"]), field("rest", ty("recv", flat_inner), flatten=True)])
+    root([field("max_volume", O, spelled=["skip", "multiple"]), field("other", O)], allow_unknown=True)
+    root([field("krate", V, rename="crate"), field("this", O, rename="self"), field("up", O, rename="super"), field("me", O, rename="Self")], max_items=2)
+
     # --- hostile-input roots (C07): flags, nested receivers / enums / maps fed bodies that are not meta syntax
     root([field("verbose", F), field("strict", F), field("other", O)], max_items=2)
     root([field("inner", ty("recv", leaf_fn)), field("e", ty("enum", e_word)), field("table", ty("map"), default="trait"), field("quiet", F)],
@@ -364,6 +378,16 @@ def build(seed, tier, focus='all'):
                  attrs_field="plain", magic_ident=True, rename_all="camelCase")
     root([field("name", V), field("rest", ty("recv", flat_inner), flatten=True)], trait="FromDeriveInput",
          attr_names=["x"], max_items=3, max_attrs=2)
+    # a forward list that leaves `doc` out: doc comments are attributes like any other
+    root([field("max_volume", V, default="trait")], trait="FromField", attr_names=["x"], forward="only", forward_names=["keep"], attrs_field="plain", max_items=1, max_attrs=3)
+    root([], trait="FromTypeParam", attr_names=["x"], forward="only", forward_names=["tool::x", "keep"], attrs_field="plain", magic_ident=True, max_items=1, max_attrs=3)
+    # a receiver whose only own member is the flatten member: several attributes still read as one list
+    root([field("rest", ty("recv", flat_inner), flatten=True)], trait="FromVariant", attr_names=["x"], magic_ident=True, max_items=2, max_attrs=3)
+    root([field("rest", ty("recv", flat_inner), flatten=True), field("hidden", V, skip=True)], trait="FromAttributes", attr_names=["x"], max_items=2, max_attrs=2)
+    # an attribute name of several segments is a name like any other
+    root([field("max_volume", V), field("other", O)], trait="FromField", attr_names=["ns::y"], max_items=2, max_attrs=2)
+    root([field("max_volume", V, default="trait")], trait="FromDeriveInput", attr_names=["x", "ns::y"], forward="only", forward_names=["ns::keep", "doc"],
+         attrs_field="plain", max_items=2, max_attrs=2)
     # marker receivers: `attributes(..)` but no ordinary field at all
     for tr in ("FromDeriveInput", "FromVariant", "FromTypeParam"):
         root([], trait=tr, attr_names=["x"], forward="all", attrs_field="plain", magic_ident=True, max_items=2, max_attrs=3)
@@ -662,6 +686,7 @@ def darling_opts_field(d, f):
         o.append("skip")
     if f["multiple"]:
         o.append("multiple")
+    o += ["%s = false" % w for w in f.get("spelled", [])]
     if f["flatten"]:
         o.append("flatten")
     wfn = "w_opt" if f["ty"]["k"] == "opt" else "w_val"
